@@ -4,6 +4,7 @@ CONSTANTS
   EnvSet <- NoSet
   ArgvSet <- NoSet
   MaxParses = 0
+  EnvChanges = FALSE
 INVARIANTS TRepeatable TLimit
 CONSTRAINT Track
 POSTCONDITION Report
